@@ -217,6 +217,12 @@ def q(s: str) -> str:
 def atom(rng, profile="all") -> str:
     """one well-defined PEP 508 atom as text"""
     r = rng.random()
+    if r < 0.015:
+        # literals that need care when rendered (fixed defect D27): a double quote, a backslash, both quote characters
+        lit = rng.choice(['say "hi"', 'a\\b', "it's", 'both \' and "', 'dir\\', '#1 SMP "x"'])
+        ql = ("'" + lit + "'") if "'" not in lit else ('"' + lit.replace('"', '\\x22') + '"')
+        ql = ql.replace("\\", "\\\\") if "\\x22" not in ql else ql
+        return f"platform_version {rng.choice(['==', '!='])} {ql}"
     if r < 0.38:
         name = rng.choice(list(STR_VARS))
         k = rng.random()
@@ -229,6 +235,11 @@ def atom(rng, profile="all") -> str:
         return f"{q(rng.choice(STR_VARS[name]))} {rng.choice(['in', 'not in'])} {name}"
     if r < 0.62:
         k = rng.random()
+        if k < 0.02:
+            # `"lit" in name` on a version variable: a substring test on the value (fixed defect D26), never merged
+            return rng.choice([f'{q(rng.choice(["3", "3.1", "3.10"]))} {rng.choice(["in", "not in"])} python_full_version',
+                               f'{q(rng.choice(["3", "3.1", "2"]))} {rng.choice(["in", "not in"])} python_version',
+                               f'{q(rng.choice(["5", "5.1", "6.1"]))} {rng.choice(["in", "not in"])} platform_release'])
         if k < 0.06:
             # literal-on-the-left atoms whose specifier view is not exact (fixed defect D21): `~=`, wildcard or
             # pre/post/dev literal on the left
@@ -321,7 +332,8 @@ def envs_for(texts, rng, limit=40):
         env = {"python_full_version": full, "python_version": f"{X}.{Y}",
                "platform_release": rng.choice(REL + ["5.9", "6.2.1"]),
                "implementation_version": full,
-               "platform_version": "#1", "extra": set(ex), "extras": set(ex), "dependency_groups": set(rng.choice(extras_pool))}
+               "platform_version": rng.choice(["#1", 'say "hi"', "a\\b", "it's"]), "extra": set(ex), "extras": set(ex),
+               "dependency_groups": set(rng.choice(extras_pool))}
         for k, v in strs.items():
             env[k] = rng.choice(v)
         out.append(env)
@@ -385,7 +397,26 @@ def known_family(texts, env):
         return "compat-render-postrelease-max"
     if env is not None and g3_applies(env):
         return "prerelease-interpreter-exclusive-bound"
+    if g5_applies(texts):
+        return "string-ordering-fallback"
     return None
+
+
+_STRV = "os_name|sys_platform|platform_machine|platform_system|implementation_name|platform_python_implementation|platform_version"
+
+
+def g5_applies(texts) -> bool:
+    """G5: an ordering operator on a plain string variable (`os_name < "posix"`): Python string comparison here, while
+    packaging 26 answers False for < and > and equality for <= and >= when the operands are not versions"""
+    import re
+    for t in texts:
+        if re.search(rf'({_STRV}) (<=|>=|<|>) "', t) or re.search(rf'" (<=|>=|<|>) ({_STRV})\b', t):
+            return True
+    return False
+
+
+G5_CASES = [('os_name < "posix"', {"os_name": "nt"}), ('sys_platform >= "linux"', {"sys_platform": "linux2"}),
+            ('"darwin" > sys_platform', {"sys_platform": "cygwin"}), ('platform_machine <= "x86_64"', {"platform_machine": "arm64"})]
 
 
 def g3_applies(env) -> bool:
